@@ -3,6 +3,7 @@ C14: a concrete well-formed table used by the non-vacuity examples of Props/C14.
 log grid front = 0, back = 2, three points (0, 1, 2), values 1, 2, 4 (positive, increasing).
 -/
 import CelerVerif.Lemmas.CalcLoss
+import Mathlib.Tactic.IntervalCases
 
 namespace CelerVerif.Calc
 open CelerVerif
@@ -27,7 +28,7 @@ theorem exGrid_Pos (p : ℕ) : (exGrid p).Pos := by
 
 theorem exGrid_Incr (p : ℕ) : (exGrid p).Incr := by
   intro i hi
-  have h3 : i + 1 < 3 := hi
+  have h3 : i < 2 := by have : i + 1 < 3 := hi; omega
   obtain ⟨h0, h1, h2⟩ := exGrid_y p
   interval_cases i
   · rw [h0, h1]; norm_num
